@@ -322,6 +322,11 @@ class SimLoop(asyncio.SelectorEventLoop):
                 return
             self._move_due_timers()
             if not self._ready:
+                # only environment events fired (no step): the stop condition
+                # (e.g. a virtual deadline) must still be honoured
+                c = self.stop_cond
+                if c is not None and c():
+                    self._stopping = True
                 return
 
         ntodo = len(self._ready)
